@@ -3,7 +3,7 @@ deprecated *_old streaming helpers of exetera/core/operations.py) vs coq/Model/S
 import itertools, functools
 
 PROP, NUM = 'C19', 19
-PROPS_FILES = ['Props/C19.v']
+PROPS_FILES = ['Props/C19.v', 'Props/C19_typed.v']
 MODES = ['jit', 'nojit']
 MODES_THOROUGH = ['jit', 'nojit', 'bounds']
 LEVEL = 'proof'
@@ -28,6 +28,141 @@ def _arr(xs, dt='int64'):
     return _np.asarray(xs, dtype=dt)
 
 
+# ---- element types.  A payload value travels as an integer: the value itself (integer dtypes), 0/1 (bool), the IEEE
+# bit pattern as an unsigned integer (float32 / float64); the same representation as in Model/SessionMergeTyped.v
+DTC = {'bool': 1, 'int8': 8, 'int16': 16, 'int32': 32, 'int64': 64, 'uint8': 108, 'uint16': 116, 'uint32': 132,
+       'uint64': 164, 'float32': 232, 'float64': 264}
+for _n in (1, 2, 3, 8):
+    DTC['S%d' % _n] = 300 + _n       # fixed-width strings: the n bytes, NUL-padded, as a big-endian number (b'' = 0)
+DTN = {v: k for k, v in DTC.items()}
+_FBITS = {'float32': 'uint32', 'float64': 'uint64'}
+
+
+def _is_s(dt):
+    return dt[0] == 'S'
+
+
+def _tarr(xs, dt):
+    """canonical integers -> ndarray of dtype dt"""
+    if _is_s(dt):
+        n = int(dt[1:])
+        return _np.asarray([int(v).to_bytes(n, 'big') for v in xs], dtype=dt)
+    if dt in _FBITS:
+        return _np.asarray(xs, dtype=_FBITS[dt]).view(dt)
+    if dt == 'bool':
+        return _np.asarray(xs, dtype='int64').astype(bool)
+    return _np.asarray(xs, dtype=dt)
+
+
+def _full(n, fill, dt):
+    """a destination array as the caller allocates it (np.full with a number would store its decimal text in an S array)"""
+    return _np.zeros(n, dtype=dt) if _is_s(dt) else _np.full(n, fill, dtype=dt)
+
+
+def _tcol(x):
+    """ndarray / numeric field -> [dtype name, canonical integers]"""
+    a = x.data[:] if isinstance(x, _fld.Field) else x
+    a = _np.asarray(a)
+    dt = str(a.dtype)
+    if a.dtype.kind == 'S':
+        n = a.dtype.itemsize
+        return ['S%d' % n, [int.from_bytes(bytes(v).ljust(n, b'\0'), 'big') for v in a]]
+    if dt in _FBITS:
+        return [dt, [int(v) for v in a.view(_FBITS[dt])]]
+    return [dt, [int(v) for v in a]]
+
+
+def _dt_range(dt):
+    if dt == 'bool':
+        return 0, 1
+    if dt.startswith('uint'):
+        return 0, (1 << int(dt[4:])) - 1
+    if dt.startswith('int'):
+        n = int(dt[3:])
+        return -(1 << (n - 1)), (1 << (n - 1)) - 1
+    return None
+
+
+def _preserved(sdt, kdt, col):
+    """a column of dtype sdt is stored unchanged in an array of dtype kdt (Proofs/SessionMergeTypedP.v: preserved)"""
+    if sdt == kdt:
+        return True
+    if sdt in _FBITS or kdt in _FBITS or _is_s(sdt) or _is_s(kdt):
+        return False
+    lo, hi = _dt_range(kdt)
+    return all(lo <= v <= hi for v in col)
+
+
+# ---- key columns: the model sees small key symbols; the real call gets their image under a strictly increasing map
+# into the key dtype (the kernels only compare keys, so the join is the same — that is the claim being tested)
+KMAPS = {
+    'i32': ('int32', lambda k: k),
+    'i64': ('int64', lambda k: k),
+    'i8lo': ('int8', lambda k: k - 128),
+    'i16hi': ('int16', lambda k: 32767 - 60 + k),
+    'i32hi': ('int32', lambda k: (1 << 31) - 1 - 60 + k),
+    'i64p53': ('int64', lambda k: (1 << 53) - 2 + k),          # neighbours that float64 cannot tell apart
+    'i64hi': ('int64', lambda k: (1 << 63) - 1 - 60 + k),
+    'i64lo': ('int64', lambda k: -(1 << 63) + k),
+    'i64w32': ('int64', lambda k: (k << 32) + 5),               # equal modulo 2^32
+    'u8': ('uint8', lambda k: 190 + k),
+    'u32hi': ('uint32', lambda k: (1 << 32) - 1 - 60 + k),
+    'u64p63': ('uint64', lambda k: (1 << 63) - 3 + k),          # straddles the sign bit of int64
+    'u64hi': ('uint64', lambda k: (1 << 64) - 1 - 60 + k),
+    'f64': ('float64', lambda k: k * 0.25 - 1.5),
+    'f64big': ('float64', lambda k: float(1 << 53) + 2.0 * k),
+    'f32': ('float32', lambda k: 0.5 * k - 2.25),
+}
+# fixed-width string keys: every string of 1..3 bytes over {space, '0', 'a', 0xff} in bytewise order (a shorter string
+# sorts before its extensions; trailing spaces and bytes >= 0x80 are significant)
+_SKEYS = sorted(bytes(t) for n in (1, 2, 3) for t in itertools.product((0x20, 0x30, 0x61, 0xff), repeat=n))
+KMAPS['S3'] = ('S3', lambda k: _SKEYS[k])
+KMAPS['S8'] = ('S8', lambda k: b'id-' + _SKEYS[k])
+KMAP_MAXSYM = 60        # symbols above this only with the maps that have room
+KMAPS_WIDE = ['i32', 'i64', 'i64p53', 'i64lo', 'i64w32', 'f64', 'f64big']
+
+
+def _keys(case, xs):
+    """key symbols -> (ndarray, dtype name)"""
+    km = case.get('km')
+    if km is None:
+        kd = case.get('kt', 'int32')
+        return _np.asarray(xs, dtype=kd), kd
+    kd, f = KMAPS[km]
+    return _np.asarray([f(k) for k in xs], dtype=kd), kd
+
+
+def key_canon(km, xs):
+    """canonical integers of the actual key values (for a payload that IS a key column)"""
+    import struct
+    kd, f = KMAPS[km]
+    if _is_s(kd):
+        return [int.from_bytes(f(k).ljust(int(kd[1:]), b'\0'), 'big') for k in xs], kd
+    if kd == 'float64':
+        return [struct.unpack('<Q', struct.pack('<d', f(k)))[0] for k in xs], kd
+    if kd == 'float32':
+        return [struct.unpack('<I', struct.pack('<f', f(k)))[0] for k in xs], kd
+    return [int(f(k)) for k in xs], kd
+
+
+# ---- objects shared between the arguments of one call (aliasing) or between the calls of a history: an argument
+# that carries a name in case['reg'] is created on first mention and re-used afterwards
+_REG = {}
+
+
+def _reg(case, role, idx, make):
+    names = (case.get('reg') or {}).get(role)
+    nm = None
+    if names is not None:
+        nm = names if isinstance(names, str) else (names[idx] if idx < len(names) else None)
+    if nm is not None and nm in _REG:
+        return _REG[nm]
+    o = make()
+    if nm is not None:
+        _REG[nm] = o
+    return o
+
+
 _H5 = {'df': None, 'n': 0, 'pid': None}
 
 
@@ -45,18 +180,23 @@ def _nfield(xs, dt='int32', h5=False):
     if h5:
         df = _h5_frame()
         _H5['n'] += 1
-        f = df.create_numeric('f%d' % _H5['n'], dt)
+        f = df.create_fixed_string('f%d' % _H5['n'], int(dt[1:])) if _is_s(dt) else df.create_numeric('f%d' % _H5['n'], dt)
     else:
-        f = _fld.NumericMemField(_S, dt)
+        f = _fld.FixedStringMemField(_S, int(dt[1:])) if _is_s(dt) else _fld.NumericMemField(_S, dt)
     if xs is not None:
-        f.data.write(_arr(xs, dt))
+        f.data.write(xs if isinstance(xs, _np.ndarray) else _tarr(xs, dt))
     return f
 
 
-def _ifield(strs):
-    f = _fld.IndexedStringMemField(_S)
+def _ifield(strs, h5=False):
+    if h5:
+        df = _h5_frame()
+        _H5['n'] += 1
+        f = df.create_indexed_string('s%d' % _H5['n'])
+    else:
+        f = _fld.IndexedStringMemField(_S)
     if strs is not None:
-        f.data.write([bytes(s).decode('ascii') for s in strs])
+        f.data.write([bytes(s).decode('utf-8') for s in strs])
     return f
 
 
@@ -94,28 +234,65 @@ class _patched:
 
     def __enter__(self):
         self.orig = {n: getattr(_ops, n) for n in _PATCH}
+        self.dcs = _ops.DEFAULT_CHUNKSIZE
         if self.cs is not None:
             for n in _PATCH:
                 setattr(_ops, n, functools.partial(self.orig[n], chunksize=self.cs))
+            # code that reads the module constant at run time (rather than through a default argument) sees the same size
+            _ops.DEFAULT_CHUNKSIZE = self.cs
 
     def __exit__(self, *a):
         for n in _PATCH:
             setattr(_ops, n, self.orig[n])
+        _ops.DEFAULT_CHUNKSIZE = self.dcs
 
 
-def _payload(kind, col, form, h5=False):
+def _payload(kind, col, form, h5=False, dt='int32'):
     """kind 'n' numeric / 'i' indexed string;  form 'a' ndarray / 'f' field"""
     if kind == 'i':
-        return _ifield(col)
-    return _arr(col, 'int32') if form == 'a' else _nfield(col, 'int32', h5)
+        return _ifield(col, h5)
+    return _tarr(col, dt) if form == 'a' else _nfield(col, dt, h5)
+
+
+def _arg(x, grp):
+    """an HDF5-backed field passed as its h5py.Group (the third documented argument form)"""
+    if grp and isinstance(x, _fld.Field) and hasattr(x, '_field') and not isinstance(x, _fld.MemoryField):
+        return x._field
+    return x
+
+
+def _exc_name(e):
+    from harness.worker import exc_name
+    return exc_name(e)
 
 
 # ----------------------------------------------------------------------------- run: the real code
 def run(case):
     np, ops, S = _np, _ops, _S
     op = case['op']
+    _REG.clear()
+    if op == 'hist':
+        # several calls one after the other on the same Session; arguments named in 'reg' are shared between them
+        out = []
+        for c in case['calls']:
+            try:
+                r = _run1(c, np, ops, S)
+            except BaseException as e:          # noqa
+                if isinstance(e, (KeyboardInterrupt, SystemExit)):
+                    raise
+                r = {'exc': _exc_name(e)}
+            out.append('EXC:' + r['exc'] if isinstance(r, dict) and 'exc' in r else r)
+        _REG.clear()
+        return out
     try:
-        return _run(case, op, np, ops, S)
+        return _run1(case, np, ops, S)
+    finally:
+        _REG.clear()
+
+
+def _run1(case, np, ops, S):
+    try:
+        return _run(case, case['op'], np, ops, S)
     except StopIteration:
         return {'exc': 'Other'}
     except AttributeError:
@@ -162,8 +339,10 @@ def _run(case, op, np, ops, S):
     if op in ('ml', 'mr', 'mi'):
         return _run_merge(case, np, ops, S)
     if op == 'gi':
-        T = _arr(case['T'], 'int32') if case['form'] == 'a' else _nfield(case['T'], 'int32')
-        F = _arr(case['F'], 'int32') if case['form'] == 'a' else _nfield(case['F'], 'int32')
+        Ta, kd = _keys(case, case['T'])
+        Fa, _ = _keys(case, case['F'])
+        T = Ta if case['form'] == 'a' else _nfield(Ta, kd)
+        F = Fa if case['form'] == 'a' else _nfield(Fa, kd)
         if case['dest'] == 'n':
             return [int(x) for x in S.get_index(T, F)]
         if case['dest'] == 'a':
@@ -178,13 +357,20 @@ def _run(case, op, np, ops, S):
     if op == 'join':
         pk = np.zeros(case['n'], dtype=np.int32)
         fk = _arr(case['fk'], 'int64') if case['form'] == 'a' else _nfield(case['fk'], 'int64')
-        vals = _arr(case['vals'], 'int32') if case['form'] == 'a' else _nfield(case['vals'], 'int32')
+        vdt = case.get('vdt', 'int32')
+        col = _tcol if case.get('typed') else _col
+        vals = _tarr(case['vals'], vdt) if case['form'] == 'a' else _nfield(case['vals'], vdt)
+        kw = {}
+        if case.get('sp'):
+            # the caller supplies the spans of the foreign-key indices (rarely used argument)
+            xs = case['fk']
+            kw['fkey_index_spans'] = np.asarray([k for k in range(len(xs)) if k == 0 or xs[k] != xs[k - 1]] + [len(xs)], dtype=np.int64)
         if case['writer']:
-            w = _nfield(None, 'int32')
-            r = S.join(pk, fk, vals, writer=w)
+            w = _nfield(None, vdt)
+            r = S.join(pk, fk, vals, writer=w, **kw)
             assert r is None
-            return [int(x) for x in w.data[:]]
-        return [int(x) for x in S.join(pk, fk, vals)]
+            return col(w)
+        return col(S.join(pk, fk, vals, **kw))
     raise ValueError(op)
 
 
@@ -192,93 +378,131 @@ def _run_oml(case, np, ops, S):
     """ordered_merge_left(L, R, srcs, sinks, map, lu, ru)  (swap=1: the same call through ordered_merge_right)
        form: 'a'  ndarray keys+sources, no sinks        'as' ndarray keys+sources, ndarray sinks (pre-filled with `fill`)
              'f'  field keys+sources, no sinks          'fs' field keys+sources, field sinks
-       mapk: 'n' no map argument / 'a' ndarray / 'f' field   (form 'fs' + mapk != 'n' is the streamable form)"""
+       mapk: 'n' no map argument / 'a' ndarray / 'f' field   (form 'fs' + mapk != 'n' is the streamable form)
+       typed: 'sdt' dtype of every source, 'kdt' dtype of every sink (default: the source's), results carry dtypes
+       km: key map (KMAPS); grp: HDF5-backed fields are passed as h5py groups; reg: shared argument objects"""
     form, mapk = case['form'], case['mapk']
     fa = 'a' if form in ('a', 'as') else 'f'
-    kd = case.get('kt', 'int32')
     h5 = bool(case.get('h5'))          # HDF5-backed fields instead of memory fields
-    L = _arr(case['L'], kd) if fa == 'a' else _nfield(case['L'], kd, h5)
-    R = _arr(case['R'], kd) if fa == 'a' else _nfield(case['R'], kd, h5)
-    srcs = tuple(_payload('n', c, fa, h5) for c in case['srcs'])
+    grp = bool(case.get('grp'))
+    typed = bool(case.get('typed'))
+    n = len(case['srcs'])
+    sdt = case.get('sdt') or ['int32'] * n
+    kdt = case.get('kdt') or sdt
+    col = _tcol if typed else _col
+
+    def key(role, xs):
+        def make():
+            a, kd = _keys(case, xs)
+            return a if fa == 'a' else _nfield(a, kd, h5)
+        return _reg(case, role, 0, make)
+    L = key('L', case['L'])
+    R = key('R', case['R'])
+    srcs = tuple(_reg(case, 'srcs', k, (lambda k=k: _payload('n', case['srcs'][k], fa, h5, sdt[k]))) for k in range(n))
     sinks = None
     if form == 'as':
-        sinks = tuple(np.full(len(case['L']), case.get('fill', 0), dtype=np.int32) for _ in case['srcs'])
+        sinks = tuple(_reg(case, 'sinks', k, (lambda k=k: _full(len(case['L']), case.get('fill', 0), kdt[k])))
+                      for k in range(len(kdt)))
     elif form == 'fs':
-        sinks = tuple(_nfield(None, 'int32', h5) for _ in case['srcs'])
+        sinks = tuple(_reg(case, 'sinks', k, (lambda k=k: _nfield(None, kdt[k], h5))) for k in range(len(kdt)))
     mp = None
     if mapk == 'a':
         mp = np.zeros(len(case['L']), dtype=np.int64)
     elif mapk == 'f':
-        mp = _nfield(None, 'int64', h5)
+        mp = _reg(case, 'map', 0, lambda: _nfield(None, 'int64', h5))
     lu, ru = bool(case['lu']), bool(case['ru'])
+    g = lambda x: _arg(x, grp)
+    seq = list if case.get('lst') else tuple            # the payload / sink collections as lists
+    gt = lambda t: None if t is None else seq(g(x) for x in t)
     with _patched(case.get('cs')):
         if case.get('swap'):
-            ret = S.ordered_merge_right(R, L, left_field_sources=srcs, right_field_sinks=sinks,
-                                        right_to_left_map=mp, left_unique=ru, right_unique=lu)
+            ret = S.ordered_merge_right(g(R), g(L), left_field_sources=gt(srcs), right_field_sinks=gt(sinks),
+                                        right_to_left_map=g(mp), left_unique=ru, right_unique=lu)
         else:
-            ret = S.ordered_merge_left(L, R, right_field_sources=srcs, left_field_sinks=sinks,
-                                       left_to_right_map=mp, left_unique=lu, right_unique=ru)
-    out_sinks = None if sinks is None else [_col(s) for s in sinks]
+            ret = S.ordered_merge_left(g(L), g(R), right_field_sources=gt(srcs), left_field_sinks=gt(sinks),
+                                       left_to_right_map=g(mp), left_unique=lu, right_unique=ru)
+    out_sinks = None if sinks is None else [col(x) for x in sinks]
     out_map = None
     if mapk == 'f':
         out_map = [int(x) for x in mp.data[:]]
-    return [_cols(ret), out_sinks, out_map]
+    return [None if ret is None else [col(x) for x in ret], out_sinks, out_map]
 
 
 def _run_omi(case, np, ops, S):
     form = case['form']
     fa = 'a' if form in ('a', 'as') else 'f'
-    L = _arr(case['L'], 'int32') if fa == 'a' else _nfield(case['L'], 'int32')
-    R = _arr(case['R'], 'int32') if fa == 'a' else _nfield(case['R'], 'int32')
-    ls = tuple(_payload('n', c, fa) for c in case['lsrcs'])
-    rs = tuple(_payload('n', c, fa) for c in case['rsrcs'])
+    La, kd = _keys(case, case['L'])
+    Ra, _ = _keys(case, case['R'])
+    h5 = bool(case.get('h5'))
+    L = La if fa == 'a' else _nfield(La, kd, h5)
+    R = Ra if fa == 'a' else _nfield(Ra, kd, h5)
+    ldt = case.get('ldt') or ['int32'] * len(case['lsrcs'])
+    rdt = case.get('rdt') or ['int32'] * len(case['rsrcs'])
+    _cols_ = (lambda t: None if t is None else [_tcol(x) for x in t]) if case.get('typed') else _cols
+    ls = tuple(_payload('n', c, fa, h5, d) for c, d in zip(case['lsrcs'], ldt))
+    rs = tuple(_payload('n', c, fa, h5, d) for c, d in zip(case['rsrcs'], rdt))
     lsk = rsk = None
     if form == 'as':
         n = case['n']
-        lsk = tuple(np.full(n, case.get('fill', 0), dtype=np.int32) for _ in ls)
-        rsk = tuple(np.full(n, case.get('fill', 0), dtype=np.int32) for _ in rs)
+        lsk = tuple(_full(n, case.get('fill', 0), d) for d in ldt)
+        rsk = tuple(_full(n, case.get('fill', 0), d) for d in rdt)
     elif form == 'fs':
-        lsk = tuple(_nfield(None, 'int32') for _ in ls)
-        rsk = tuple(_nfield(None, 'int32') for _ in rs)
+        lsk = tuple(_nfield(None, d, h5) for d in ldt)
+        rsk = tuple(_nfield(None, d, h5) for d in rdt)
     ret = S.ordered_merge_inner(L, R, left_field_sources=ls, left_field_sinks=lsk,
                                 right_field_sources=rs, right_field_sinks=rsk,
                                 left_unique=bool(case['lu']), right_unique=bool(case['ru']))
     if ret is None:
         r = None
     elif len(ret) == 2 and isinstance(ret[0], tuple):
-        r = [_cols(ret[0]), _cols(ret[1])]
+        r = [_cols_(ret[0]), _cols_(ret[1])]
     else:
-        r = [_cols(ret)]
-    return [r, None if lsk is None else [_col(s) for s in lsk], None if rsk is None else [_col(s) for s in rsk]]
+        r = [_cols_(ret)]
+    return [r, _cols_(lsk), _cols_(rsk)]
 
 
 def _run_merge(case, np, ops, S):
     """merge_left / merge_right / merge_inner; payload descriptors: list of [kind, col] with kind 'n'/'i';
        form 'a' ndarray keys and numeric payloads / 'f' fields;  wr: destination writers given"""
     op, form = case['op'], case['form']
-    L = _arr(case['L'], 'int32') if form == 'a' else _nfield(case['L'], 'int32')
-    R = _arr(case['R'], 'int32') if form == 'a' else _nfield(case['R'], 'int32')
+    La, kd = _keys(case, case['L'])
+    Ra, _ = _keys(case, case['R'])
+    h5 = bool(case.get('h5'))
+    L = La if form == 'a' else _nfield(La, kd, h5)
+    R = Ra if form == 'a' else _nfield(Ra, kd, h5)
+    typed = bool(case.get('typed'))
+
+    def pdt(p):
+        return p[2] if len(p) > 2 else 'int32'
 
     def pays(ps):
-        return tuple(_payload(k, c, form) for (k, c) in ps)
+        return tuple(_payload(p[0], p[1], form, h5, pdt(p)) for p in ps)
 
     def writers(ps):
         if not case['wr']:
             return None
-        return tuple(_ifield(None) if k == 'i' else _nfield(None, 'int32') for (k, c) in ps)
+        return tuple(_ifield(None, h5) if p[0] == 'i' else _nfield(None, pdt(p), h5) for p in ps)
+
+    def col(x):
+        if typed and not (isinstance(x, _fld.Field) and x.indexed):
+            return _tcol(x)
+        return _col(x)
+
+    def cols(t):
+        return None if t is None else [col(x) for x in t]
 
     if op == 'ml':
         p = pays(case['rp']); w = writers(case['rp'])
         ret = S.merge_left(L, R, right_fields=p, right_writers=w)
-        return [_cols(ret), None if w is None else [_col(x) for x in w]]
+        return [cols(ret), cols(w)]
     if op == 'mr':
         p = pays(case['lp']); w = writers(case['lp'])
         ret = S.merge_right(L, R, left_fields=p, left_writers=w)
-        return [_cols(ret), None if w is None else [_col(x) for x in w]]
+        return [cols(ret), cols(w)]
     lp, rp = pays(case['lp']), pays(case['rp'])
     lw, rw = writers(case['lp']), writers(case['rp'])
     ret = S.merge_inner(L, R, left_fields=lp, left_writers=lw, right_fields=rp, right_writers=rw)
-    return [[_cols(ret[0]), _cols(ret[1])], None if lw is None else [[_col(x) for x in lw], [_col(x) for x in rw]]]
+    return [[cols(ret[0]), cols(ret[1])], None if lw is None else [cols(lw), cols(rw)]]
 
 
 # ----------------------------------------------------------------------------- wire
@@ -290,7 +514,8 @@ VER = int(__import__('os').environ.get('VERIF_C19_VER', '1'))   # 1 = model of t
 
 def _enc_payloads(ps):
     out = []
-    for k, col in ps:
+    for p_ in ps:
+        k, col = p_[0], p_[1]
         if k == 'n':
             out.append([0, list(col)])
         else:
@@ -313,6 +538,19 @@ def to_val(case):
         return [4, case['L'], case['R'], case['cs'], case['inv']]
     if op == 'kmvold':
         return [5, case['data'], case['map'], case['cs'], case['inv']]
+    if op == 'hist':
+        return [13, [to_val(c) for c in case['calls']]]
+    if op == 'oml' and case.get('typed'):
+        n = len(case['L'])
+        sdt = case.get('sdt') or ['int32'] * len(case['srcs'])
+        kdt = case.get('kdt') or sdt
+        has_sinks = case['form'] in ('as', 'fs')
+        sinks0 = [[case.get('fill', 0)] * n for _ in kdt] if case['form'] == 'as' else []
+        cs = case.get('cs')
+        return [12, (max(len(case['L']), len(case['R'])) + 2) if cs is None else cs, case['L'], case['R'],
+                [[DTC[d], list(c)] for d, c in zip(sdt, case['srcs'])], FORMS[case['form']],
+                [DTC[d] for d in kdt] if has_sinks else [], sinks0, MAPKS[case['mapk']], case['lu'], case['ru'],
+                1 if case.get('h5') else 0]
     if op == 'oml':
         n = len(case['L'])
         sinks0 = [[case.get('fill', 0)] * n for _ in case['srcs']] if case['form'] == 'as' else []
@@ -379,9 +617,21 @@ def in_domain(case):
         return ok and case['n'] == _n_inner(case['L'], case['R'])
     if op in ('ksold', 'kmvold'):
         return False          # deprecated helpers, not Session entry points after the fix: correspondence only
+    if op == 'hist':
+        return all(in_domain(c) for c in case['calls'])
     if op == 'oml':
         if not case['srcs'] or not case['ru'] or not _sorted(case['L']) or not _strict(case['R']):
             return False
+        if case.get('typed'):
+            sdt = case.get('sdt') or ['int32'] * len(case['srcs'])
+            kdt = case.get('kdt') or sdt
+            if case['form'] in ('as', 'fs'):
+                if len(kdt) != len(sdt):
+                    return False
+                if case['form'] == 'as' and kdt != sdt:
+                    return False        # numba cannot compile map_valid(src, map, snk) for two different array types
+                if not all(_preserved(a, b, c) for a, b, c in zip(sdt, kdt, case['srcs'])):
+                    return False
         if case['lu'] and not _strict(case['L']):
             return False
         if case['form'] == 'as' and case.get('fill', 0) != 0:
@@ -415,10 +665,25 @@ def _n_inner(L, R):
 
 def from_val(case, v):
     from harness.core import decode_err
+    op = case['op']
+    if op == 'hist':
+        if decode_err(v) is not None:
+            return decode_err(v), decode_err(v)
+        ms = [from_val(c, x) for c, x in zip(case['calls'], v)]
+        return [m for m, _ in ms], [s_ for _, s_ in ms]
     model, spec = v
     e = decode_err(model)
-    op = case['op']
     dom = in_domain(case)
+    typed = bool(case.get('typed'))
+    if op == 'oml' and typed:
+        sdt = case.get('sdt') or ['int32'] * len(case['srcs'])
+        kdt = case.get('kdt') or sdt
+        if e is not None:
+            return e, (_oml_shape(case, [[d, c] for d, c in zip(_out_dt(case, sdt, kdt), spec)], None) if dom else e)
+        tc = lambda o: None if o == [] else [[DTN[c[0]], c[1]] for c in o[0]]
+        m = [tc(model[0]), tc(model[1]), _opt(model[2])]
+        cols = m[0] if m[0] is not None else m[1]
+        return m, (_oml_shape(case, [[mc[0], sc] for mc, sc in zip(cols, spec)], m[2]) if dom else m)
     if op in ('klru', 'klbu', 'ksold'):
         m = e if e is not None else [model[0], model[1]]
         if op == 'ksold' and e is None and case.get('dst', 'f') == 'a':
@@ -444,31 +709,60 @@ def from_val(case, v):
         m = [_opt(model[0]), _opt(model[1]), _opt(model[2])]
         return m, (_oml_shape(case, spec, m[2]) if dom else m)
     if op == 'omi':
+        ldt = case.get('ldt') or ['int32'] * len(case['lsrcs'])
+        rdt = case.get('rdt') or ['int32'] * len(case['rsrcs'])
+        tg = (lambda cols, dts: [[d, c] for d, c in zip(dts, cols)]) if typed else (lambda cols, dts: cols)
+        tspec = [tg(spec[0], ldt), tg(spec[1], rdt)]
         if e is not None:
-            return e, (e if not dom else _omi_shape(case, spec))
+            return e, (e if not dom else _omi_shape(case, tspec))
         ret = model[0]
-        m = [None if ret == [] else ret, _opt(model[1]), _opt(model[2])]
-        return m, (_omi_shape(case, spec) if dom else m)
+        if typed and ret != []:
+            ret = [tg(ret[0], ldt)] + ([tg(ret[1], rdt)] if len(ret) == 2 else [])
+        m = [None if ret == [] else ret, None if model[1] == [] else tg(model[1][0], ldt),
+             None if model[2] == [] else tg(model[2][0], rdt)]
+        return m, (_omi_shape(case, tspec) if dom else m)
     if op in ('ml', 'mr'):
+        ps = case['rp'] if op == 'ml' else case['lp']
+        dec = lambda l: [_dec_tpayload(p, q, typed) for p, q in zip(l, ps)]
         if e is not None:
-            return e, [None if case['wr'] else [_dec_payload(p) for p in spec], [_dec_payload(p) for p in spec] if case['wr'] else None]
-        cols = [_dec_payload(p) for p in model]
-        scols = [_dec_payload(p) for p in spec]
+            return e, [None if case['wr'] else dec(spec), dec(spec) if case['wr'] else None]
+        cols = dec(model)
+        scols = dec(spec)
         return _merge_shape(case, cols), _merge_shape(case, scols)
     if op == 'mi':
         if e is not None:
             return e, e
-        cols = [[_dec_payload(p) for p in model[0]], [_dec_payload(p) for p in model[1]]]
-        scols = [[_dec_payload(p) for p in spec[0]], [_dec_payload(p) for p in spec[1]]]
+        dec = lambda l, ps: [_dec_tpayload(p, q, typed) for p, q in zip(l, ps)]
+        cols = [dec(model[0], case['lp']), dec(model[1], case['rp'])]
+        scols = [dec(spec[0], case['lp']), dec(spec[1], case['rp'])]
         if case['wr']:
             return [[[], []], cols], [[[], []], scols]
         return [cols, None], [scols, None]
     if op == 'gi':
         return model, spec
     if op == 'join':
-        m = e if e is not None else model
-        return m, (spec if dom else m)
+        tg = (lambda c: [case.get('vdt', 'int32'), c]) if typed else (lambda c: c)
+        m = e if e is not None else tg(model)
+        return m, (tg(spec) if dom else m)
     raise ValueError(op)
+
+
+def _dec_tpayload(p, desc, typed):
+    c = _dec_payload(p)
+    if typed and desc[0] == 'n':
+        return [desc[2] if len(desc) > 2 else 'int32', c]
+    return c
+
+
+def _out_dt(case, sdt, kdt):
+    """the dtype each form hands back (Model/SessionMergeTyped.v: staged_dtype); only used to shape the expected value
+    when the model itself stopped with the documented long-run error"""
+    f = case['form']
+    if f in ('a', 'f'):
+        return sdt
+    if f == 'as' or (f == 'fs' and case['mapk'] == 'f') or case.get('h5'):
+        return kdt
+    return sdt
 
 
 def _merge_shape(case, cols):
@@ -518,11 +812,20 @@ def _rows(cols):
     return sorted(zip(*[[repr(x) for x in c] for c in flat]))
 
 
+def _untag(side):
+    """typed columns [dtype, values] -> (dtypes, value columns)"""
+    tagged = [isinstance(c, list) and len(c) == 2 and isinstance(c[0], str) for c in side]
+    return [c[0] if t else None for c, t in zip(side, tagged)], [c[1] if t else c for c, t in zip(side, tagged)]
+
+
 def _eq(case, impl, exp, mode, is_spec):
     from harness.core import results_equal
     op = case['op']
     if isinstance(exp, str) or isinstance(impl, str):
         return results_equal(impl, exp, mode)
+    if op == 'hist':
+        return len(impl) == len(exp) and all(_eq(c, i, x, mode, is_spec) or (is_spec and i == 'EXC:ValueError' and long_run(c))
+                                             for c, i, x in zip(case['calls'], impl, exp))
     if op == 'mi':
         # pandas' inner merge may list the matching pairs in any order; all payload columns of one call
         # must be permuted consistently, so rows (across left and right payloads) are compared as multisets
@@ -530,7 +833,11 @@ def _eq(case, impl, exp, mode, is_spec):
         ec = exp[1] if case['wr'] else exp[0]
         if (impl[0] if case['wr'] else impl[1]) != (exp[0] if case['wr'] else exp[1]):
             return False
-        return [len(x) for x in ic] == [len(x) for x in ec] and _rows(ic) == _rows(ec)
+        if [len(x) for x in ic] != [len(x) for x in ec]:
+            return False
+        (idl, icl), (idr, icr) = _untag(ic[0]), _untag(ic[1])
+        (edl, ecl), (edr, ecr) = _untag(ec[0]), _untag(ec[1])
+        return idl == edl and idr == edr and _rows([icl, icr]) == _rows([ecl, ecr])
     if op == 'gi' and is_spec:
         return len(impl) == len(exp) and all((a >= INV64) if b == -1 else a == b for a, b in zip(impl, exp))
     return impl == exp
@@ -551,6 +858,40 @@ def features(case, model):
     f = []
     op = case['op']
     f.append('op:' + op)
+    if op == 'hist':
+        calls = case['calls']
+        f.append('history:%d-calls' % len(calls))
+        names = [repr(sorted((c.get('reg') or {}).items())) for c in calls]
+        if any(c.get('reg') for c in calls): f.append('history:shared-argument-objects')
+        dts = [tuple(c.get('sdt') or ()) for c in calls]
+        if len(set(dts)) > 1: f.append('history:payload-dtypes-change-between-calls')
+        if len(set(c['op'] for c in calls)) > 1: f.append('history:different-entry-points')
+        lens = [len(c.get('L', c.get('T', c.get('fk', [])))) for c in calls]
+        if any(a > b for a, b in zip(lens, lens[1:])): f.append('history:shorter-call-after-longer')
+        for k, c in enumerate(calls):
+            sub = model[k] if isinstance(model, list) and k < len(model) else model
+            f.extend(x for x in features(c, sub) if x not in f)
+        return f
+    if case.get('typed'):
+        f.append('typed-payloads')
+        dts = list(case.get('sdt') or []) + list(case.get('ldt') or []) + list(case.get('rdt') or []) + \
+            [p[2] for p in case.get('lp', []) + case.get('rp', []) if len(p) > 2] + ([case['vdt']] if 'vdt' in case else [])
+        for d in sorted(set(dts)): f.append('payload:' + d)
+        if len(set(dts)) > 1: f.append('payload-dtypes-differ-within-call')
+        if case.get('kdt') and case.get('kdt') != case.get('sdt'): f.append('sink-dtype-wider-than-source')
+        allv = [v for c in case.get('srcs', []) + case.get('lsrcs', []) + case.get('rsrcs', []) for v in c]
+        if any(abs(v) > (1 << 53) for v in allv): f.append('payload-value-beyond-2^53')
+        if any(_is_s(d) for d in dts): f.append('fixed-width-string-payload')
+    if case.get('km'): f.append('keymap:' + case['km'])
+    if case.get('grp'): f.append('h5py-group-arguments')
+    if case.get('lst'): f.append('payloads-and-sinks-as-lists')
+    if case.get('sp'): f.append('join:caller-supplied-spans')
+    if case.get('h5') and case['op'] != 'oml': f.append('hdf5-backed-fields')
+    if case.get('reg'):
+        r = case['reg']
+        flat = [r.get('L'), r.get('R')] + list(r.get('srcs') or [])
+        flat = [x for x in flat if x]
+        if len(set(flat)) < len(flat): f.append('aliased-arguments')
     if isinstance(model, str):
         f.append('err:' + model)
     if not in_domain(case):
@@ -590,8 +931,10 @@ def features(case, model):
     if op in ('ml', 'mr', 'mi'):
         f.append('form:' + case['form'] + ('/writers' if case['wr'] else ''))
         ps = case.get('lp', []) + case.get('rp', [])
-        if any(k == 'i' for k, c in ps): f.append('indexed-string-payload')
-        if any(k == 'i' and any(len(s) == 0 for s in c) for k, c in ps): f.append('empty-string-in-payload')
+        if any(p_[0] == 'i' for p_ in ps): f.append('indexed-string-payload')
+        if any(p_[0] == 'i' and any(len(s) == 0 for s in p_[1]) for p_ in ps): f.append('empty-string-in-payload')
+        if any(p_[0] == 'i' and any(len(s) >= 256 for s in p_[1]) for p_ in ps): f.append('string-of-256-or-more-bytes')
+        if any(p_[0] == 'i' and any(b >= 128 for s in p_[1] for b in s) for p_ in ps): f.append('non-ascii-string')
     if op == 'gi':
         T, F = case['T'], case['F']
         f.append('dest:' + case['dest'] + '/form:' + case['form'])
@@ -614,6 +957,9 @@ def features(case, model):
 
 
 def nontrivial(case, model):
+    if case['op'] == 'hist':
+        return any(nontrivial(c, model[k] if isinstance(model, list) and k < len(model) else model)
+                   for k, c in enumerate(case['calls']))
     fs = features(case, model)
     return any(x in fs for x in ('matched', 'unmatched-left', 'missing-key', 'invalid-fkey', 'span>1', 'invalid-entries',
                                  'multi-chunk-map', 'dup-target(last wins)')) or case['op'] in ('gi', 'join')
@@ -834,9 +1180,491 @@ def gen(tier, rng):
         R = sorted(rng.randint(0, 8) for _ in range(rng.randint(0, 12)))
         yield {'op': 'omi', 'L': L, 'R': R, 'lu': 0, 'ru': 0, 'n': _n_inner(L, R), 'form': rng.choice(forms4),
                'lsrcs': [_src(len(L), 0)], 'rsrcs': [_src(len(R), 5)]}
+    # ---- element types, key dtypes, histories of calls on one Session, aliased arguments, change-directed sizes
+    for g in (_gen_typed, _gen_hist, _gen_alias, _gen_hot, _gen_changed):
+        for c in g(big, rng):
+            yield c
+
+
+# ----------------------------------------------------------------------------- generators: element types, histories, aliasing
+DTYPES = ['int8', 'int16', 'int32', 'int64', 'uint8', 'uint16', 'uint32', 'uint64', 'bool', 'float32', 'float64', 'S3', 'S1', 'S8']
+# (source dtype, wider sink dtype): the sink can hold every value of the source
+WIDEN = [('int8', 'int16'), ('int8', 'int64'), ('int16', 'int32'), ('int32', 'int64'), ('uint8', 'uint16'), ('uint8', 'int16'),
+         ('uint16', 'int32'), ('uint32', 'int64'), ('uint32', 'uint64'), ('bool', 'int8'), ('bool', 'uint8'), ('bool', 'int64'),
+         ('uint8', 'uint64'), ('int8', 'int32')]
+
+
+def _f64(x):
+    import struct
+    return struct.unpack('<Q', struct.pack('<d', x))[0]
+
+
+def _f32(x):
+    import struct
+    return struct.unpack('<I', struct.pack('<f', x))[0]
+
+
+_POOLS = {}
+
+
+def _pool(dt):
+    """values of a dtype that a wrong intermediate type would damage: extremes, beyond 2^31 / 2^53, fractions, NaN, -0.0"""
+    if dt in _POOLS:
+        return _POOLS[dt]
+    if _is_s(dt):
+        n = int(dt[1:])
+        raw = [b'x', b'yy', b'zzz', b'w w', b' ', b'a ', b'\xff\xfe\xfd', b'0', 'é'.encode(), b'a\x00b', b'A\x01', b'abcdefgh',
+               b'12345678', b'  pad  ', b'\xff' * 8, b'Zo\xc3\xab', b'   ']
+        p = []
+        for b in raw:
+            v = int.from_bytes(b[:n].rstrip(b'\0').ljust(n, b'\0'), 'big')
+            if v and v not in p:
+                p.append(v)
+    elif dt == 'bool':
+        p = [1, 1, 0, 1, 0, 1, 1]
+    elif dt == 'float64':
+        p = [_f64(x) for x in (70.5, -81.25, 0.1, 1.7976931348623157e308, 5e-324, -0.0, float('inf'), 2.0 ** 53 + 2, 1e-7,
+                               float('-inf'), 64.75, 3.0e9, -2.5, 1600000000.123456)] + [0x7ff8000000000000]
+    elif dt == 'float32':
+        p = [_f32(x) for x in (70.5, -81.25, 0.1, 3.4028234663852886e38, 1e-45, -0.0, float('inf'), 16777216.0, 1e-7,
+                               float('-inf'), 64.75, 3.0e9, -2.5)] + [0x7fc00000]
+    else:
+        lo, hi = _dt_range(dt)
+        p = [hi, lo, hi - 1, lo + 1, 1, (-1 if lo < 0 else 2), hi // 2 + 1, 3, (lo // 2 - 1 if lo < 0 else hi // 3)]
+        if dt in ('int64', 'uint64'):
+            p += [(1 << 53) + 1, (1 << 32) + 5, 1600000000123456789, 1 << 31, (1 << 53) + 3, (1 << 40) + 7]
+        if dt == 'uint64':
+            p += [1 << 63, (1 << 63) + 1]
+        if dt in ('int32', 'uint32'):
+            p += [(1 << 24) + 1, (1 << 16) + 5, 70]
+        q = []
+        for v in p:
+            if lo <= v <= hi and v not in q:
+                q.append(v)
+        p = q
+    _POOLS[dt] = p
+    return p
+
+
+def _tsrc(n, dt, off=0):
+    p = _pool(dt)
+    return [p[(j + off) % len(p)] for j in range(n)]
+
+
+def _ref_lp(L, R, col):
+    """left-join payload for a unique right key (only used to write down what a shared sink holds in a later call)"""
+    idx = {k: i for i, k in enumerate(R)}
+    return [col[idx[k]] if k in idx else 0 for k in L]
+
+
+# representative key pairs: (left, right unique): duplicates left, matched, unmatched both sides, unmatched tail, empty sides
+KP = [([0, 0, 1, 3], [0, 1, 2]), ([1, 2, 3], [0, 2, 3, 5]), ([0, 1], []), ([], [0, 1]), ([0, 1, 1, 1, 2, 4, 4], [1, 2, 3, 4]),
+      ([2, 2, 5], [2]), ([0, 1, 2, 3, 4, 5], [0, 1, 2, 3, 4, 5])]
+TFORMS = [('fs', 'f', 1), ('fs', 'f', 2), ('fs', 'f', 3), ('fs', 'f', None), ('a', 'n', None), ('as', 'n', None), ('f', 'n', None),
+          ('fs', 'n', None), ('fs', 'a', None), ('f', 'f', None), ('a', 'a', None)]
+
+
+def _toml(L, R, sdt, form, mapk, cs, lu=0, offs=None, **kw):
+    srcs = [_tsrc(len(R), d, (offs[k] if offs else 3 * k)) for k, d in enumerate(sdt)]
+    c = {'op': 'oml', 'typed': 1, 'L': L, 'R': R, 'lu': lu, 'ru': 1, 'srcs': srcs, 'sdt': list(sdt), 'form': form, 'mapk': mapk,
+         'cs': cs}
+    c.update(kw)
+    return c
+
+
+def _gen_typed(big, rng):
+    cnt = 0
+    # every dtype alone x every argument form
+    for d in DTYPES:
+        for fi, (form, mapk, cs) in enumerate(TFORMS):
+            for L, R in (KP[(cnt + fi) % len(KP)], KP[(cnt + fi + 3) % len(KP)]):
+                cnt += 1
+                yield _toml(L, R, [d], form, mapk, cs, lu=(cnt % 2 if _strict(L) else 0), swap=cnt % 2)
+    # every ordered pair of dtypes in one call: streamed at several chunk sizes + two in-memory forms (rotating)
+    for d1 in DTYPES:
+        for d2 in DTYPES:
+            cnt += 1
+            L, R = KP[cnt % len(KP)]
+            for cs in (1, 2, None):
+                yield _toml(L, R, [d1, d2], 'fs', 'f', cs, swap=(cnt + (cs or 0)) % 2)
+            for r in range(2):
+                form, mapk, cs = TFORMS[4 + (cnt + 3 * r) % 7]
+                yield _toml(L, R, [d1, d2], form, mapk, cs)
+            # HDF5-backed fields, streamed and through sink fields
+            yield _toml(L, R, [d1, d2], 'fs', 'f', 2, h5=1)
+            if cnt % 3 == 0:
+                yield _toml(L, R, [d1, d2], 'fs', 'n', None, h5=1)
+                yield _toml(L, R, [d1, d2], 'fs', 'f', None, h5=1, grp=1)
+    # three payloads (quick: the third dtype rotates; thorough: every triple)
+    for d1 in DTYPES:
+        for d2 in DTYPES:
+            for d3 in (DTYPES if big else [DTYPES[(DTYPES.index(d1) + 2 * DTYPES.index(d2) + 5) % len(DTYPES)]]):
+                cnt += 1
+                L, R = KP[cnt % len(KP)]
+                yield _toml(L, R, [d1, d2, d3], 'fs', 'f', (1, 2, 3, None)[cnt % 4], swap=cnt % 2)
+                if big or cnt % 4 == 0:
+                    form, mapk, cs = TFORMS[4 + cnt % 7]
+                    yield _toml(L, R, [d1, d2, d3], form, mapk, cs)
+    # many payloads in one call (4..8), dtypes rotating
+    for npay in range(4, 9):
+        for r in range(len(DTYPES) if big else 3):
+            cnt += 1
+            sdt = [DTYPES[(r + 4 * k + k * k) % len(DTYPES)] for k in range(npay)]
+            L, R = KP[cnt % len(KP)]
+            yield _toml(L, R, sdt, 'fs', 'f', (2, None, 1)[cnt % 3])
+            yield _toml(L, R, sdt, 'a', 'n', None)
+    # a sink wider than its source (value-preserving), next to a payload of another dtype, in both positions
+    for a, b in WIDEN:
+        for other in ('float64', 'int64', 'uint8') if big else ('float64',):
+            for pos in (0, 1):
+                cnt += 1
+                L, R = KP[cnt % len(KP)]
+                sdt = [a, other] if pos == 0 else [other, a]
+                kdt = [b, other] if pos == 0 else [other, b]
+                yield _toml(L, R, sdt, 'fs', 'f', (1, 2, None)[cnt % 3], kdt=kdt)
+                yield _toml(L, R, sdt, 'fs', 'f', 2, kdt=kdt, h5=1)
+                yield _toml(L, R, sdt, 'fs', 'n', None, kdt=kdt)             # memory field sink: keeps the source's dtype
+                yield _toml(L, R, sdt, 'fs', 'n', None, kdt=kdt, h5=1)       # HDF5 field sink: the dataset's dtype
+    # h5py.Group arguments (HDF5-backed fields passed as groups) in every form that takes fields
+    for d in DTYPES if big else ('int32', 'float64', 'uint64', 'bool'):
+        for form, mapk, cs in (('fs', 'f', 2), ('fs', 'f', None), ('f', 'n', None), ('fs', 'n', None), ('f', 'f', None)):
+            cnt += 1
+            L, R = KP[cnt % len(KP)]
+            yield _toml(L, R, [d, 'int64'], form, mapk, cs, h5=1, grp=1, swap=cnt % 2, lu=(cnt % 2 if _strict(L) else 0))
+    # payloads and sinks given as lists instead of tuples
+    for fi, (form, mapk, cs) in enumerate(TFORMS):
+        cnt += 1
+        L, R = KP[cnt % len(KP)]
+        yield _toml(L, R, [DTYPES[cnt % len(DTYPES)], DTYPES[(cnt + 6) % len(DTYPES)]], form, mapk, cs, lst=1)
+    # longer columns (structured random): several chunks of keys, payload and map at small chunk sizes, runs of equal left
+    # keys ending at chunk ends, 1..4 payloads of random dtypes, every form
+    for _ in range(4000 if big else 700):
+        cs = rng.randint(1, 6)
+        key, L, R = 0, [], []
+        tl, tr = rng.randint(0, 5 * cs), rng.randint(0, 5 * cs)
+        while len(L) < tl:
+            key += rng.choice([1, 1, 2])
+            L.extend([key] * rng.choice([1, 1, 1, 2, max(1, cs - 1), max(1, cs - 2)]))
+        key = 0
+        while len(R) < tr:
+            key += rng.choice([1, 1, 2]); R.append(key)
+        sdt = [rng.choice(DTYPES) for _ in range(rng.choice([1, 2, 2, 3, 4]))]
+        form, mapk, cs_ = rng.choice(TFORMS[:4] * 3 + TFORMS)
+        kw = {}
+        if rng.random() < 0.2 and max(L + R + [0]) <= KMAP_MAXSYM:
+            kw['km'] = rng.choice(list(KMAPS))
+        if form in ('f', 'fs') and rng.random() < 0.1:
+            kw['h5'] = 1
+        yield _toml(L, R, sdt, form, mapk, (cs if cs_ is not None else None) if (form, mapk) == ('fs', 'f') else None,
+                    lu=1 if _strict(L) and rng.random() < 0.5 else 0, offs=[rng.randrange(12) for _ in sdt],
+                    swap=rng.randint(0, 1), **kw)
+    # arguments outside the precondition: fewer / more sinks than sources (model == impl only)
+    yield _toml([0, 1], [0, 2], ['int32', 'float64'], 'fs', 'f', 2, kdt=['int32'])
+    yield _toml([0, 1], [0, 2], ['int32'], 'fs', 'n', None, kdt=['int32', 'int64'])
+    # ---- key columns of every dtype / at the extremes of their range (order-isomorphic images of the key symbols)
+    for km in KMAPS:
+        for pi, (L, R) in enumerate(KP):
+            if not big and pi % 2 == 1 and km not in ('i64p53', 'u64p63', 'f64'):
+                continue
+            cnt += 1
+            for form, mapk, cs in (('fs', 'f', 1), ('fs', 'f', 2), ('fs', 'f', None), ('a', 'n', None), ('f', 'n', None), ('fs', 'n', None)):
+                yield _toml(L, R, ['int32' if cnt % 2 else 'float64'], form, mapk, cs, km=km, swap=cnt % 2,
+                            lu=(cnt % 2 if _strict(L) else 0))
+        for L, R in (([0, 1, 1, 3], [1, 1, 2, 3]), ([0, 2, 4], [0, 1, 2]), ([1, 1], [1, 1, 1])):
+            cnt += 1
+            for form in ('a', 'fs') if not big else ('a', 'as', 'f', 'fs'):
+                yield {'op': 'omi', 'L': L, 'R': R, 'lu': 0, 'ru': 0, 'n': _n_inner(L, R), 'form': form, 'km': km,
+                       'lsrcs': [_src(len(L), 0)], 'rsrcs': [_src(len(R), 5)]}
+        for L, R in (([2, 0, 5, 2], [0, 2, 2]), ([1, 3, 0], [3, 1, 4, 1])):
+            for op in ('ml', 'mr', 'mi'):
+                cnt += 1
+                yield {'op': op, 'L': L, 'R': R, 'form': 'af'[cnt % 2], 'wr': (cnt // 2) % 2, 'km': km,
+                       'lp': [['n', _src(len(L), 0)]], 'rp': [['n', _src(len(R), 5)]]}
+        for T, F in (([3, 1, 4, 1], [1, 5, 4, 5, 9]), ([0, 1, 2], [2, 2, 0]), ([], [1])):
+            cnt += 1
+            yield {'op': 'gi', 'T': T, 'F': F, 'form': 'af'[cnt % 2], 'dest': 'naf'[cnt % 3], 'km': km}
+    # ---- ordered_merge_inner: every ordered pair (left payload dtype, right payload dtype)
+    for d1 in DTYPES:
+        for d2 in DTYPES:
+            cnt += 1
+            L, R = (([0, 1, 1, 3], [1, 1, 2, 3]), ([0, 2, 4], [0, 1, 2, 4]), ([1, 1], [1, 1, 1]))[cnt % 3]
+            lu = 1 if _strict(L) and cnt % 2 else 0
+            ru = 1 if _strict(R) and (cnt // 2) % 2 else 0
+            for r in range(2 if not big else 4):
+                yield {'op': 'omi', 'typed': 1, 'L': L, 'R': R, 'lu': lu, 'ru': ru, 'n': _n_inner(L, R),
+                       'form': ['a', 'as', 'f', 'fs'][(cnt + r) % 4], 'ldt': [d1, d2], 'rdt': [d2],
+                       'lsrcs': [_tsrc(len(L), d1), _tsrc(len(L), d2, 4)], 'rsrcs': [_tsrc(len(R), d2, 1)]}
+    # ---- merge_left / merge_right / merge_inner and join: every numeric payload dtype
+    for d in DTYPES:
+        d2 = DTYPES[(DTYPES.index(d) + 5) % len(DTYPES)]
+        for L, R in (([2, 0, 5, 2], [0, 2, 2]), ([1, 3, 0], [3, 1, 4, 1]), ([], [1]), ([1, 1], [])):
+            for op in ('ml', 'mr', 'mi'):
+                for form in 'af':
+                    cnt += 1
+                    lp = [['n', _tsrc(len(L), d), d], ['n', _tsrc(len(L), d2, 2), d2]]
+                    rp = [['n', _tsrc(len(R), d2, 1), d2], ['n', _tsrc(len(R), d, 5), d]]
+                    if form == 'f':
+                        lp.append(['i', _istr(len(L), 1)]); rp.insert(1, ['i', _istr(len(R), 0)])
+                    yield {'op': op, 'typed': 1, 'L': L, 'R': R, 'form': form, 'wr': cnt % 2, 'lp': lp, 'rp': rp}
+                    if form == 'f' and (big or cnt % 3 == 0):
+                        yield {'op': op, 'typed': 1, 'L': L, 'R': R, 'form': form, 'wr': (cnt // 3) % 2, 'lp': lp, 'rp': rp, 'h5': 1}
+        for fk in ([0, 1, 1, 2], [2, INV64, 0, 0], []):
+            for form in 'af':
+                cnt += 1
+                yield {'op': 'join', 'typed': 1, 'n': 3, 'fk': fk, 'vals': _tsrc(_nruns(fk), d), 'vdt': d, 'form': form,
+                       'writer': cnt % 2}
+                yield {'op': 'join', 'typed': 1, 'n': 3, 'fk': fk, 'vals': _tsrc(_nruns(fk), d), 'vdt': d, 'form': form,
+                       'writer': (cnt + 1) % 2, 'sp': 1}
+        for form in ('a', 'as', 'f', 'fs'):
+            cnt += 1
+            L, R = (([0, 1, 1, 3], [1, 1, 2, 3]), ([0, 2, 4], [0, 1, 2, 4]))[cnt % 2]
+            if form in ('f', 'fs'):
+                yield {'op': 'omi', 'typed': 1, 'L': L, 'R': R, 'lu': 0, 'ru': 0, 'n': _n_inner(L, R), 'form': form, 'h5': 1,
+                       'ldt': [d, d2], 'rdt': [d2], 'lsrcs': [_tsrc(len(L), d), _tsrc(len(L), d2, 4)], 'rsrcs': [_tsrc(len(R), d2, 1)]}
+    # ---- indexed-string payloads whose characters are not bytes, and entries of 255 / 256 / 257 and more bytes
+    strs = [list(x) for x in ('é'.encode(), '男'.encode(), '\U0001F600'.encode(), b'a' * 255, b'b' * 256, ('é' * 128).encode(),
+                              b'c' * 257, b'', 'Zoë'.encode(), b'd' * 300, ('女' * 90).encode(), b'e')]
+    for r in range(len(strs)):
+        for L, R in (([2, 0, 5, 2], [0, 2, 2]), ([1, 3, 0, 0], [3, 1, 4, 1])):
+            for op in ('ml', 'mr', 'mi'):
+                cnt += 1
+                lp = [['i', [strs[(r + j) % len(strs)] for j in range(len(L))]], ['n', _src(len(L), 0)]]
+                rp = [['n', _src(len(R), 5)], ['i', [strs[(r + 2 * j + 1) % len(strs)] for j in range(len(R))]]]
+                yield {'op': op, 'L': L, 'R': R, 'form': 'f', 'wr': cnt % 2, 'lp': lp, 'rp': rp}
+
+
+def _streamed_typed(L, R, sdt, cs, **kw):
+    return _toml(L, R, sdt, 'fs', 'f', cs, **kw)
+
+
+def _templates(i, v):
+    """call templates for histories (v varies lengths / dtypes so that two instances of a template differ)"""
+    L, R = KP[(i + v) % len(KP)]
+    L2, R2 = KP[(i + 2 * v + 4) % len(KP)]
+    d = DTYPES[(3 * i + 5 * v) % len(DTYPES)]
+    e = DTYPES[(3 * i + 5 * v + 7) % len(DTYPES)]
+    t = [
+        lambda: _streamed_typed(L, R, [d], 2),
+        lambda: _streamed_typed(L2, R2, [d, e], None),
+        lambda: _streamed_typed(L, R, [e, d, 'int32'], 1),
+        lambda: _toml(L, R, [d, e], 'a', 'n', None),
+        lambda: _toml(L2, R2, [d], 'as', 'n', None),
+        lambda: _toml(L, R, [e], 'fs', 'n', None),
+        lambda: _toml(L2, R2, [d, e], 'f', 'n', None),
+        lambda: _streamed_typed(L, R, [d, e], 2, h5=1),
+        lambda: {'op': 'omi', 'typed': 1, 'L': [0, 1, 1, 3], 'R': [1, 1, 2, 3], 'lu': 0, 'ru': 0, 'n': 5, 'form': ['a', 'fs'][v % 2],
+                 'ldt': [d], 'rdt': [e], 'lsrcs': [_tsrc(4, d)], 'rsrcs': [_tsrc(4, e, 1)]},
+        lambda: {'op': 'ml', 'typed': 1, 'L': [2, 0, 5, 2], 'R': [0, 2, 2], 'form': 'f', 'wr': v % 2,
+                 'rp': [['n', _tsrc(3, d), d], ['i', _istr(3, 0)]]},
+        lambda: {'op': 'mi', 'typed': 1, 'L': [1, 3, 0], 'R': [3, 1, 4, 1], 'form': 'a', 'wr': 0,
+                 'lp': [['n', _tsrc(3, e), e]], 'rp': [['n', _tsrc(4, d, 1), d]]},
+        lambda: {'op': 'join', 'typed': 1, 'n': 3, 'fk': [0, 1, 1, 2], 'vals': _tsrc(3, d), 'vdt': d, 'form': 'af'[v % 2], 'writer': v % 2},
+        lambda: {'op': 'gi', 'T': [3, 1, 4, 1], 'F': [1, 5, 4, 5, 9], 'form': 'af'[v % 2], 'dest': 'naf'[v % 3]},
+    ]
+    return t[i % len(t)]()
+
+
+N_TEMPLATES = 13
+
+
+def _gen_hist(big, rng):
+    cnt = 0
+    # two streamed calls whose payload dtypes differ: every ordered pair; lengths grow or shrink between the calls
+    for d1 in DTYPES:
+        for d2 in DTYPES:
+            cnt += 1
+            A, B = KP[4], KP[cnt % 4 if cnt % 4 != 2 else 5]
+            if cnt % 2:
+                A, B = B, A
+            cs = (2, None, 1, 3)[cnt % 4]
+            yield {'op': 'hist', 'calls': [_streamed_typed(A[0], A[1], [d1], cs), _streamed_typed(B[0], B[1], [d2], cs)]}
+    # every ordered pair of call templates (different entry points, forms and dtypes one after the other)
+    for i in range(N_TEMPLATES):
+        for j in range(N_TEMPLATES):
+            cnt += 1
+            yield {'op': 'hist', 'calls': [_templates(i, cnt % 3), _templates(j, cnt % 3 + 1)]}
+    # three and four calls
+    for _ in range(400 if big else 60):
+        k = rng.choice([3, 3, 4])
+        yield {'op': 'hist', 'calls': [_templates(rng.randrange(N_TEMPLATES), rng.randrange(6)) for _ in range(k)]}
+    # the same call twice: (a) all arguments fresh, (b) keys and sources shared, sinks fresh, (c) with another call between
+    for d in DTYPES:
+        for fi, (form, mapk, cs) in enumerate(TFORMS[:9]):
+            if not big and (DTYPES.index(d) + fi) % 3:
+                continue
+            cnt += 1
+            L, R = KP[cnt % len(KP)]
+            c = _toml(L, R, [d, DTYPES[(cnt + 4) % len(DTYPES)]], form, mapk, cs)
+            yield {'op': 'hist', 'calls': [c, dict(c)]}
+            shared = dict(c, reg={'L': 'kL', 'R': 'kR', 'srcs': ['p0', 'p1']})
+            yield {'op': 'hist', 'calls': [shared, dict(shared)]}
+            yield {'op': 'hist', 'calls': [shared, _templates(cnt, 1), dict(shared)]}
+    # chained merges: the sink (and the map field) of one call is a payload of the next, the left key of the first
+    # call is the right key of the second
+    for d in DTYPES:
+        for v in range(4 if big else 2):
+            cnt += 1
+            L1, R1 = ([1, 2, 3], [0, 2, 3, 5]) if v % 2 == 0 else ([0, 1, 2, 3, 4, 5], [0, 1, 2, 3, 4, 5])
+            L2 = [0, 1, 1, 3, 3, 6] if v < 2 else [2, 2, 5]
+            p1 = _tsrc(len(R1), d, v)
+            s1 = _ref_lp(L1, R1, p1)
+            jm = [R1.index(k) if k in R1 else INV64 for k in L1]
+            cs = (2, None, 1, 3)[cnt % 4]
+            c1 = {'op': 'oml', 'typed': 1, 'L': L1, 'R': R1, 'lu': 1, 'ru': 1, 'srcs': [p1], 'sdt': [d], 'form': 'fs', 'mapk': 'f',
+                  'cs': cs, 'reg': {'L': 'k1', 'sinks': ['s1'], 'map': 'm1'}}
+            c2 = {'op': 'oml', 'typed': 1, 'L': L2, 'R': L1, 'lu': 0, 'ru': 1, 'srcs': [s1, jm], 'sdt': [d, 'int64'],
+                  'form': 'fs', 'mapk': 'f', 'cs': cs, 'reg': {'R': 'k1', 'srcs': ['s1', 'm1']}}
+            yield {'op': 'hist', 'calls': [c1, c2]}
+            c2b = dict(c2, form='f', mapk='n', cs=None)
+            yield {'op': 'hist', 'calls': [c1, c2b]}
+
+
+def _gen_alias(big, rng):
+    """one call whose arguments are one object: a payload that IS the right key column, the same payload twice,
+    the left and the right key the same column"""
+    cnt = 0
+    kms = list(KMAPS) if big else ['i32', 'i64p53', 'u64hi', 'f64', 'i8lo', 'f32']
+    for km in kms:
+        for L, R in KP:
+            for form, mapk, cs in TFORMS[:8]:
+                cnt += 1
+                if not big and cnt % 2:
+                    continue
+                kc, kd = key_canon(km, R)
+                other = DTYPES[cnt % len(DTYPES)]
+                # right key as payload (first or second position)
+                srcs = [kc, _tsrc(len(R), other, 1)]
+                sdt = [kd, other]
+                names = ['kR', None]
+                if cnt % 4 >= 2:
+                    srcs, sdt, names = srcs[::-1], sdt[::-1], names[::-1]
+                yield {'op': 'oml', 'typed': 1, 'L': L, 'R': R, 'lu': 0, 'ru': 1, 'srcs': srcs, 'sdt': sdt, 'form': form,
+                       'mapk': mapk, 'cs': cs, 'km': km, 'reg': {'R': 'kR', 'srcs': names}}
+    for d in DTYPES:
+        for L, R in KP[:5]:
+            for form, mapk, cs in TFORMS[:8]:
+                cnt += 1
+                if not big and cnt % 3:
+                    continue
+                p = _tsrc(len(R), d)
+                # the same payload object in two positions, with a third one between them
+                yield {'op': 'oml', 'typed': 1, 'L': L, 'R': R, 'lu': 0, 'ru': 1, 'srcs': [p, _tsrc(len(R), 'float64', 2), p],
+                       'sdt': [d, 'float64', d], 'form': form, 'mapk': mapk, 'cs': cs, 'reg': {'srcs': ['p', None, 'p']}}
+    for K in ([0, 1, 2, 3], [1, 4], [], [5]):
+        for form, mapk, cs in TFORMS[:8]:
+            for lu in (0, 1):
+                cnt += 1
+                d = DTYPES[cnt % len(DTYPES)]
+                # self-merge: left and right key are one column (and the payload is that column, too)
+                kc, kd = key_canon('i64', K)
+                yield {'op': 'oml', 'typed': 1, 'L': K, 'R': K, 'lu': lu, 'ru': 1, 'srcs': [_tsrc(len(K), d), kc], 'sdt': [d, kd],
+                       'form': form, 'mapk': mapk, 'cs': cs, 'km': 'i64', 'reg': {'L': 'k', 'R': 'k', 'srcs': [None, 'k']}}
+
+
+def _gen_hot(big, rng):
+    """change-directed: a small integer literal that is new in the tree under test (harness/hot.py) is used as chunk size,
+    column length, run length and number of payloads"""
+    from harness import hot
+    for K in hot.hot_sizes():
+        nrand = (400 if big else 120) if K <= 600 else (40 if big else 12)
+
+        def side(target, unique, cs):
+            xs, key = [], 0
+            while len(xs) < target:
+                key += rng.choice([1, 1, 2])
+                run = 1 if unique else rng.choice([1, 1, 2, K - 1, K, K + 1, max(1, cs - 1)])
+                xs.extend([key] * max(1, min(run, target - len(xs))))
+            return xs
+        for _ in range(nrand):
+            cs = max(1, rng.choice([K - 1, K, K + 1, 2 * K, None, None]) or 0) or None
+            base = cs or K
+            tl = rng.choice([K - 1, K, K + 1, 2 * K, 2 * K + 1, base - 1, base, base + 1, 2 * base + 1, 3 * base])
+            tr = rng.choice([K - 1, K, K + 1, 2 * K, 2 * K + 1, base - 1, base, base + 1, 2 * base + 1, 3 * base])
+            lu = rng.random() < 0.3
+            L = side(max(0, tl), lu, base)
+            R = side(max(0, tr), True, base)
+            npay = rng.choice([1, 2, 3] + ([K - 1, K, K + 1] if K <= 8 else []))
+            sdt = [rng.choice(DTYPES) for _ in range(max(1, npay))]
+            form, mapk = rng.choice([('fs', 'f')] * 4 + [('a', 'n'), ('fs', 'n'), ('as', 'n'), ('f', 'n')])
+            c = _toml(L, R, sdt, form, mapk, cs if (form, mapk) == ('fs', 'f') else None, lu=1 if lu else 0,
+                      offs=[rng.randrange(12) for _ in sdt], swap=rng.randint(0, 1))
+            if rng.random() < 0.25:
+                c2 = _toml(R[:max(1, len(R) // 2)], R, [rng.choice(DTYPES)], 'fs', 'f', cs)
+                yield {'op': 'hist', 'calls': [c, c2]}
+            else:
+                yield c
+        # the other entry points with column lengths around K (K small enough for the quadratic specification)
+        if K <= 400:
+            for n in sorted(set(max(0, x) for x in (K - 1, K, K + 1, 2 * K, 2 * K + 1))):
+                for v in range(3 if big else 2):
+                    L = sorted(rng.randint(0, n) for _ in range(n))
+                    R = sorted(rng.randint(0, n) for _ in range(max(0, n + rng.choice([-1, 0, 1]))))
+                    d = rng.choice(DTYPES)
+                    yield {'op': 'omi', 'typed': 1, 'L': L, 'R': sorted(set(R)), 'lu': 0, 'ru': 1, 'n': _n_inner(L, sorted(set(R))),
+                           'form': rng.choice(['a', 'as', 'f', 'fs']), 'ldt': [d], 'rdt': ['int64'],
+                           'lsrcs': [_tsrc(len(L), d)], 'rsrcs': [_tsrc(len(set(R)), 'int64', 2)]}
+                    Lu = [rng.randint(0, n) for _ in range(n)]
+                    Ru = [rng.randint(0, n) for _ in range(n)]
+                    op = rng.choice(['ml', 'mr', 'mi'])
+                    yield {'op': op, 'typed': 1, 'L': Lu, 'R': Ru, 'form': 'f', 'wr': rng.randint(0, 1),
+                           'lp': [['n', _tsrc(len(Lu), d), d], ['i', _istr(len(Lu), 1)]],
+                           'rp': [['i', _istr(len(Ru), 0)], ['n', _tsrc(len(Ru), d, 3), d]]}
+                    yield {'op': 'gi', 'T': Ru, 'F': Lu, 'form': 'af'[v % 2], 'dest': 'naf'[v % 3]}
+                    fk = sorted(rng.randint(0, max(0, n - 1)) for _ in range(n)) if n else []
+                    yield {'op': 'join', 'typed': 1, 'n': n, 'fk': fk, 'vals': _tsrc(_nruns(fk), d), 'vdt': d, 'form': 'af'[v % 2],
+                           'writer': v % 2}
+
+
+def _gen_changed(big, rng):
+    """a larger random budget when a library source differs from the recorded tree"""
+    from harness import hot
+    if not hot.changed():
+        return
+    for _ in range(6000 if big else 1500):
+        cs = rng.choice([1, 2, 3, 4, 5, 8, 16, None])
+        key, L, R = 0, [], []
+        tl, tr = rng.randint(0, 24), rng.randint(0, 24)
+        while len(L) < tl:
+            key += rng.choice([1, 1, 2])
+            L.extend([key] * rng.choice([1, 1, 1, 2, 3]))
+        key = 0
+        while len(R) < tr:
+            key += rng.choice([1, 1, 2]); R.append(key)
+        sdt = [rng.choice(DTYPES) for _ in range(rng.choice([1, 2, 2, 3, 4]))]
+        form, mapk, cs_ = rng.choice(TFORMS)
+        kw = {}
+        if rng.random() < 0.3:
+            kw['km'] = rng.choice(KMAPS_WIDE if max(L + R + [0]) > KMAP_MAXSYM else list(KMAPS))
+        if form in ('f', 'fs') and rng.random() < 0.15:
+            kw['h5'] = 1
+        c = _toml(L, R, sdt, form, mapk, cs if (form, mapk) == ('fs', 'f') else None,
+                  lu=1 if _strict(L) and rng.random() < 0.5 else 0, offs=[rng.randrange(12) for _ in sdt], swap=rng.randint(0, 1), **kw)
+        if rng.random() < 0.3:
+            yield {'op': 'hist', 'calls': [c, _templates(rng.randrange(N_TEMPLATES), rng.randrange(6))]}
+        else:
+            yield c
+
 
 
 def shrink(case):
+    if case['op'] == 'hist':
+        calls = case['calls']
+        for i in range(len(calls)):
+            if len(calls) > 1:
+                yield dict(case, calls=calls[:i] + calls[i + 1:])
+        if len(calls) == 1:
+            yield calls[0]
+        return
+    if case.get('typed') and case['op'] == 'oml' and len(case['srcs']) > 1:
+        for i in range(len(case['srcs'])):
+            c = dict(case)
+            for k in ('srcs', 'sdt', 'kdt'):
+                if case.get(k):
+                    c[k] = case[k][:i] + case[k][i + 1:]
+            if case.get('reg'):
+                c['reg'] = {k: (v if isinstance(v, str) else v[:i] + v[i + 1:]) if k in ('srcs', 'sinks') else v
+                            for k, v in case['reg'].items()}
+            yield c
     for side in ('L', 'R', 'T', 'F', 'fk', 'map'):
         if side in case:
             xs = case[side]
@@ -871,6 +1699,21 @@ def warmup():
                       'rp': [['n', [3, 4]], ['i', [[98], [99]]]]})
     cases.append({'op': 'gi', 'T': [1, 2], 'F': [2, 3], 'form': 'a', 'dest': 'n'})
     cases.append({'op': 'join', 'n': 2, 'fk': [0, 1], 'vals': [3, 4], 'form': 'a', 'writer': 0})
+    # one numba specialisation per payload dtype / key dtype: compile them once, before the worker forks
+    for d in DTYPES:
+        for form, mapk, cs in (('a', 'n', None), ('as', 'n', None), ('fs', 'f', 2)):
+            cases.append(_toml([1, 2], [2, 3], [d], form, mapk, cs))
+        cases.append({'op': 'ml', 'typed': 1, 'L': [1, 2], 'R': [2, 2], 'form': 'a', 'wr': 0, 'rp': [['n', [1, 1], d]]})
+    for a, b in WIDEN:
+        cases.append(_toml([1, 2], [2, 3], [a], 'fs', 'f', 2, kdt=[b]))
+    seen = set()
+    for km in KMAPS:               # one specialisation of the key kernels per key dtype (the rarer ones compile on first use)
+        if KMAPS[km][0] in seen:
+            continue
+        seen.add(KMAPS[km][0])
+        for lu in (0, 1):
+            for form, mapk, cs in (('a', 'n', None), ('fs', 'f', 2)):
+                cases.append(_toml([1, 2], [2, 3], ['int32'], form, mapk, cs, km=km, lu=lu))
     for c in cases:
         try:
             run(c)
@@ -891,9 +1734,27 @@ RULE = ('exhaustive over order-types: every pair of non-decreasing key sequences
         'pre-filled destination arrays, empty payload tuple) are compared with the model only; plus seeded random longer '
         'cases with runs of equal left keys planted at chunk ends. Memory-backed fields (no HDF5 file per case). '
         'merge_inner is compared up to one consistent permutation of the output rows (pandas does not promise more). '
-        'Non-trivial = at least one matched or unmatched key / missing key / invalid index is present.')
+        'Non-trivial = at least one matched or unmatched key / missing key / invalid index is present. '
+        'ELEMENT TYPES: every numeric dtype and fixed-width strings (int8..int64, uint8..uint64, bool, float32, float64, S1, S3, S8; values at the extremes of '
+        'the dtype, beyond 2^31 / 2^53, fractions, NaN, -0.0, +-inf, compared by bit pattern together with the dtype of the '
+        'returned column) alone in each of the 11 argument forms, every ordered PAIR of dtypes in one call (streamed at chunk '
+        'sizes 1, 2 and the default, two in-memory forms, HDF5-backed), triples (thorough: all 1331), 4..8 payloads, sinks '
+        'wider than their source, for ordered_merge_left/right; every ordered dtype pair for ordered_merge_inner; every dtype '
+        'for merge_left/right/inner and join. KEY COLUMNS of every integer/float dtype and at the ends of their range '
+        '(18 strictly increasing key maps incl. neighbours beyond 2^53, values equal modulo 2^32, the uint64 sign bit, fixed-width '
+        'string keys with trailing spaces and bytes >= 0x80). '
+        'HISTORIES: several calls on one Session in one case — every ordered pair of payload dtypes in two successive '
+        'streamed calls, every ordered pair of 13 call templates (all entry points), the same call twice with fresh or '
+        'shared argument objects, chained merges where the sink and the map field of one call are payloads of the next, '
+        'growing and shrinking lengths. ALIASING: a payload that is the right key column, one payload object in two '
+        'positions, left key = right key. h5py.Group arguments. Indexed-string payloads with multi-byte characters and '
+        'entries of 255/256/257+ bytes. ops.DEFAULT_CHUNKSIZE is set to the case\'s chunk size together with the wrapped '
+        'chunksize defaults. CHANGE-DIRECTED: small integer literals new in the tree under test become chunk sizes, column '
+        'lengths, run lengths and payload counts; a changed source file adds 1500 (thorough 6000) random typed cases.')
 EXHAUSTIVE = {'quick': True, 'thorough': True}
 TRUSTED = ['numba code generation; numpy fancy indexing / boolean masks; MemoryField write / write_part (modelled as append)',
+           'key columns: the model joins the key SYMBOLS, the real call their image under a strictly increasing map into the key '
+           'dtype (the kernels only compare keys); payload values are integers / IEEE bit patterns on both sides',
            'pandas.merge(how=left) = rows of the relational left join in order, pandas.merge(how=inner) = some permutation of '
            'the matching pairs — explicit premises of the merge_* theorems, exercised here on every generated key pair',
            'Python dict semantics in get_index (modelled as an association list, newest binding first)',
@@ -901,12 +1762,20 @@ TRUSTED = ['numba code generation; numpy fancy indexing / boolean masks; MemoryF
            'default 2^20 is run on the real code and compared with the model at a chunk size just beyond both inputs '
            '(equal by the chunking-independence theorems)']
 ASSUMPTIONS = ['ordered_* forms: keys sorted ascending, uniqueness flags truthful, right key unique (the call rejects anything else)',
+               'a sink has the dtype of its source, or is an integer sink wide enough for every value of an integer/bool source '
+               '(conversions from/to floating point and narrowing are not modelled and not generated); ndarray sinks have the '
+               'source dtype (numba cannot compile map_valid for two different array types: observation O-C19f)',
+               'key columns of both sides have the same dtype; float keys are not NaN',
                'ndarray destination arrays are zero-initialised by the caller',
                'streamed form: no run of equal left keys as long as the chunk size (2^20 in production) — otherwise the documented ValueError',
                'fewer than 2^62 rows (INVALID_INDEX is not a row number); payload columns have the length of their key column']
 TECHNIQUE = ('Coq proof (faithful model of the kernels, Session plumbing and — reused from C03/C04 — the streamed generators '
              '= relational join + payload mapping) + exhaustive small-scope differential correspondence against the repository')
-LEVEL_TEXT = ('26 theorems in coq/Props/C19.v (all closed under the global context) about the Gallina model '
+LEVEL_TEXT = ('6 theorems in coq/Props/C19_typed.v about coq/Model/SessionMergeTyped.v (element types: every payload of a '
+              'call is mapped on its own, in the dtype its argument form prescribes, whatever the other payloads, sinks and '
+              'earlier calls: ordered_merge_left_typed_inmemory_correct / _streamed_correct / _payloads_independent, '
+              'session_history_call_alone) and '
+              '26 theorems in coq/Props/C19.v (all closed under the global context) about the Gallina model '
               'coq/Model/SessionMerge.v: the six non-streamed kernels equal the relational left/inner join for all sorted '
               'inputs; Session.ordered_merge_left/right return left_payload in every in-memory form and in the streamed form '
               'for every chunk size (both-unique: always; right-unique: or the documented long-run ValueError), all forms '
